@@ -27,7 +27,7 @@ ASSUMPTIONS = [
 DEPTH = {"quick": 3, "thorough": 4}
 T0 = 1_700_000_000.0
 MODS = [("same", 1.0), ("same", 3600.0), ("other", 0.0), ("other", 1.0), ("other", 3600.0), ("touch", 1.0), ("touch", 3600.0), ("restore", 1.0)]
-FORMS = ["etag", "lm", "both", "list", "weak", "weak-list", "weak-list-nospace", "star"]
+FORMS = ["etag", "lm", "both", "list", "weak", "weak-list", "weak-list-nospace", "star", "both-reversed", "head:etag", "head:both-reversed", "head:star"]
 
 
 class VStat:
@@ -63,7 +63,7 @@ class VStat:
 
 
 class World:
-    def __init__(self, t0=None, tz=None):
+    def __init__(self, t0=None, tz=None, settings=None):
         import time as _time
         self.tz = tz
         if tz:
@@ -83,7 +83,8 @@ class World:
         os.stat = self.vstat
         from baize import wsgi as W, asgi as A
 
-        self.apps = {("wsgi", "Files"): W.Files(self.dir), ("wsgi", "Pages"): W.Pages(self.dir), ("asgi", "Files"): A.Files(self.dir), ("asgi", "Pages"): A.Pages(self.dir)}
+        kw = dict(settings or {})
+        self.apps = {("wsgi", "Files"): W.Files(self.dir, **kw), ("wsgi", "Pages"): W.Pages(self.dir, **kw), ("asgi", "Files"): A.Files(self.dir, **kw), ("asgi", "Pages"): A.Pages(self.dir, **kw)}
 
     def content(self):
         if getattr(self, "restored", False):
@@ -124,10 +125,10 @@ class World:
             os.environ["TZ"] = "UTC"
             _time.tzset()
 
-    def request(self, key, headers):
+    def request(self, key, headers, method="GET"):
         iface, kind = key
         path = "/x.html" if kind == "Files" else "/x"
-        req = SV.AReq(path=path, headers=headers)
+        req = SV.AReq(method=method, path=path, headers=headers)
         app = self.apps[key]
         if iface == "wsgi":
             return SV.run_wsgi(app, SV.to_environ(req))
@@ -136,6 +137,9 @@ class World:
 
 def validator_headers(form, v):
     et, lm = v["etag"], v["lm"]
+    form = form.split(":")[-1]
+    if form == "both-reversed":
+        return [("If-Modified-Since", lm), ("If-None-Match", et)]
     if form == "etag":
         return [("If-None-Match", et)]
     if form == "lm":
@@ -155,13 +159,15 @@ def validator_headers(form, v):
     raise KeyError(form)
 
 
-VARIANTS = [(0.0, None), (0.6, None), (0.0, "America/New_York"), (0.25, "Asia/Shanghai")]  # (fraction of a second on the file clock, process time zone)
+# (fraction of a second on the file clock, process time zone, application settings)
+VARIANTS = [(0.0, None, None), (0.6, None, None), (0.0, "America/New_York", None), (0.25, "Asia/Shanghai", None),
+            (0.0, None, {"cacheability": "no-cache"}), (0.0, None, {"cacheability": "private", "max_age": 0}), (0.0, None, {"cacheability": "no-store", "max_age": 1})]
 
 
 def run_history(hist, r, collect_only=False, variant=0):
     """hist: tuple of (mod_index or None, battery: bool). Index None = initial state step. Returns list of problems."""
-    frac, tz = VARIANTS[variant]
-    w = World(t0=T0 + frac, tz=tz)
+    frac, tz, settings = VARIANTS[variant]
+    w = World(t0=T0 + frac, tz=tz, settings=settings)
     problems = []
     try:
         # state id for validators: (content version, touch count, clock, size)
@@ -193,7 +199,8 @@ def run_history(hist, r, collect_only=False, variant=0):
                     recorded[key].append({"state": state, "etag": et, "lm": lm, "restored": getattr(w, "restored", False)})
                 for old in recorded[key]:
                     for form in FORMS:
-                        res2 = w.request(key, validator_headers(form, old))
+                        head = form.startswith("head:")
+                        res2 = w.request(key, validator_headers(form, old), "HEAD" if head else "GET")
                         r.count("transitions")
                         r.count("evaluations")
                         unchanged = old["state"] == state
@@ -205,7 +212,7 @@ def run_history(hist, r, collect_only=False, variant=0):
                         if res2.status == 304:
                             if res2.body:
                                 problems.append((si, key, form, "304 with a body"))
-                            if form == "star":
+                            if form.endswith("star"):
                                 continue
                             if not unchanged:
                                 same_second = int(old["state"][2]) == int(state[2]) and not getattr(w, "restored", False) and not old.get("restored")
@@ -213,11 +220,11 @@ def run_history(hist, r, collect_only=False, variant=0):
                                     continue  # not visible through a date with one-second resolution
                                 problems.append((si, key, form, f"STALE 304: validators of version {old['state']} ({form}) accepted although the file is now {state}"))
                         elif res2.status == 200:
-                            if res2.body != w.content():
+                            if res2.body != (b"" if head else w.content()):
                                 problems.append((si, key, form, "200 with wrong content"))
                             if unchanged and form != "lm":
                                 problems.append((si, key, form, f"file unchanged but {form} validators of its own 200 did not revalidate (status 200)"))
-                            if form == "star":
+                            if form.endswith("star"):
                                 problems.append((si, key, form, "If-None-Match: * on an existing file did not give 304"))
                             if not unchanged and res2.header("etag") == old["etag"]:
                                 problems.append((si, key, form, "full response after a modification carries the old ETag"))
@@ -304,7 +311,7 @@ def run_shard(desc, tier):
         for v in range(1, len(VARIANTS)):
             if len(h) <= 2 or tier == "thorough":
                 for p_ in run_history(h, r, variant=v):
-                    problems.append(p_[:3] + (f"[file clock +{VARIANTS[v][0]}s, TZ={VARIANTS[v][1] or 'UTC'}] " + p_[3],))
+                    problems.append(p_[:3] + (f"[file clock +{VARIANTS[v][0]}s, TZ={VARIANTS[v][1] or 'UTC'}, settings {VARIANTS[v][2]}] " + p_[3],))
         r.count("traces")
         states.add(h)
         if any(b for _, b in h[:-1]) or len(h) > 0:
